@@ -323,7 +323,7 @@ class FakeMsg:
 
 RULES = [
     {}, {'mtype': 'signal'}, {'mtype': 'method_call'}, {'interface': 'org.a.I'}, {'member': 'Sig'}, {'path': '/a/b'},
-    {'path_namespace': '/a/b'}, {'path_namespace': '/'}, {'destination': ':1.5'}, {'args': [(0, 'x')]}, {'args': [(1, 'y')]},
+    {'path_namespace': '/a/b'}, {'path_namespace': '/'}, {'path': '/'}, {'destination': ':1.5'}, {'args': [(0, 'x')]}, {'args': [(1, 'y')]},
     {'arg_paths': [(0, '/aa/')]}, {'arg_paths': [(0, '/aa/bb')]}, {'arg_paths': [(0, '/aa')]},
     {'mtype': 'signal', 'interface': 'org.a.I', 'member': 'Sig', 'path': '/a/b'},
     {'path_namespace': '/a/b', 'args': [(0, 'x')]},
